@@ -332,6 +332,13 @@ def uninit_cases(rng, n):
         sc = scenario.Scn().file("in0.cab", cab); cab_ops(sc, 1, 4); out.append(Case("uninit:mszip-short-frame-then-far-match", "cab", sc))
         kw = kwajfmt.kwaj(4, struct.pack("<H", len(z1)) + z1 + struct.pack("<H", len(z)) + z + b"\0\0", 1, len(first) + ulen)
         sc = scenario.Scn().file("in0.kwj", kw); fmt_ops("kwaj", sc); out.append(Case("uninit:kwaj-mszip-short-frame-then-far-match", "kwaj", sc))
+    # KWAJ headers that end inside the optional file name / extension string (2..8 resp. 1..3 bytes, none of them NUL): what open()
+    # reports must not depend on the unwritten rest of the buffer the string is read into  (the same on every run)
+    for flags, name, ext in ((0x08, b"ABCDEFGH", b""), (0x10, b"", b"XYZ"), (0x18, b"AB", b"XYZ"), (0x09, b"ABCDEFGH", b"")):
+        whole = kwajfmt.kwaj(0, b"", flags, 0, name=name, ext=ext)
+        first = 14 + (4 if flags & 1 else 0) + (len(name) + 1 if (flags & 0x18) == 0x18 else 0)
+        for cut in range(first + 1, len(whole)):
+            sc = scenario.Scn().file("in0.kwj", whole[:cut]); fmt_ops("kwaj", sc); out.append(Case("uninit:kwaj-header-ends-in-name", "kwaj", sc))
     for i in range(n):
         # LZSS: the very first tokens copy from ring positions at and beyond the initial write position (never written by the decoder)
         kind = i % 3; mode = [0, 2, 2][kind]; start = 4096 - (18 if mode == 2 else 16)
@@ -560,7 +567,7 @@ def targeted_cases(rng, n):
         sc = scenario.Scn().file("in0.chm", cut).op("chm_new").op("chm_fast_open", "h0", "in0.chm")
         for nm in (b"/f%03d.txt" % (10 * k + 8), b"/f%03d.txt" % (10 * k + 8), b"/f059.txt", b"/f059.txt", b"/f000.txt", b"/f%03d.txt" % (10 * k + 9)): sc.op("chm_find", "h0", nm.hex())
         sc.op("chm_close", "h0")
-        out.append(Case("hostile:chm-cut-chunk-refind", "chm", sc))
+        out.append(Case("hostile:chm-cut-chunk-refind", "chm", sc, all_faults=True))        # few host calls: every one of them fails in turn
     # (11) well-formed Quantum folders with a window smaller than the frame: matches straddle the window end while members are extracted and skipped
     for i in range(max(3, n // 2)):
         wb = [10, 11, 10, 12, 13][i % 5]
